@@ -10,7 +10,14 @@ use crate::charsets::Charset;
 /// of UTF-8 encoded bytes. The `Read::read_to_string` method can be used to convert
 /// the stream of UTF-8 bytes into a `String`.
 #[derive(Debug)]
-pub struct TextReader<R>(DecodeReaderBytes<R, Vec<u8>>);
+pub struct TextReader<R> {
+    inner: DecodeReaderBytes<R, Vec<u8>>,
+    // Decoded bytes waiting to be handed out to a caller that reads with a buffer too small for
+    // what the decoder may have to write in one go.
+    staged: [u8; 8],
+    staged_pos: usize,
+    staged_len: usize,
+}
 
 impl<R> TextReader<R>
 where
@@ -18,7 +25,12 @@ where
 {
     /// Create a new `TextReader` with the given charset.
     pub fn new(inner: R, charset: Charset) -> Self {
-        Self(DecodeReaderBytesBuilder::new().encoding(Some(charset)).build(inner))
+        Self {
+            inner: DecodeReaderBytesBuilder::new().encoding(Some(charset)).build(inner),
+            staged: [0; 8],
+            staged_pos: 0,
+            staged_len: 0,
+        }
     }
 }
 
@@ -27,7 +39,20 @@ where
     R: Read,
 {
     fn read(&mut self, buf: &mut [u8]) -> io::Result<usize> {
-        self.0.read(buf)
+        // The decoder writes what it flushes at the end of the stream in one go (up to two
+        // replacement characters, 6 bytes, for ISO-2022-JP) and drops what does not fit.
+        // Reads with less room than the staging buffer has are served from that buffer.
+        if self.staged_pos == self.staged_len {
+            if buf.len() >= self.staged.len() || buf.is_empty() {
+                return self.inner.read(buf);
+            }
+            self.staged_len = self.inner.read(&mut self.staged)?;
+            self.staged_pos = 0;
+        }
+        let n = buf.len().min(self.staged_len - self.staged_pos);
+        buf[..n].copy_from_slice(&self.staged[self.staged_pos..self.staged_pos + n]);
+        self.staged_pos += n;
+        Ok(n)
     }
 }
 
